@@ -757,6 +757,7 @@ where
     let mut visited = CellSecondaryMap::new();
 
     while let Some(cell_key) = queue.pop() {
+        verif_tick!("conflict/bfs_step");
         // Skip if already visited
         if visited.contains_key(cell_key) {
             continue;
